@@ -346,6 +346,7 @@ class Run:
         self.pack_since_backup = False
         self.trace = []
         self.excluded_notes = []
+        self.outside = None
 
     def count(self, k, n=1):
         self.counts[k] = self.counts.get(k, 0) + n
@@ -354,6 +355,13 @@ class Run:
         self.lines.append((op, obs))
 
     def violation(self, sig, what):
+        if self.outside:
+            # after a step outside the stated guarantee nothing is judged any more (the model is
+            # still compared with the code); what the code did is described in evidence
+            self.count('not-judged(%s):%s' % (self.outside, sig.split(':')[1]))
+            if len(self.excluded_notes) < 6:
+                self.excluded_notes.append(what[:300])
+            return
         self.violations.append((sig, what))
 
     # ---- source ------------------------------------------------------------------------
@@ -504,6 +512,9 @@ class Run:
     def do_backup(self, st):
         flags = st['flags'].replace('-', '')
         _FT.now += st.get('dt', 1)
+        if st.get('dt', 1) == 0 and self.all_backups:
+            self.outside = 'two-backups-within-one-second'
+            self.count('backup:same-second-as-previous')
         now = _FT.now
         committed, tail = self.source()
         raw = committed + tail
@@ -512,7 +523,8 @@ class Run:
         qd = True
         if 'Q' in flags:
             qd = self.quick_detectable(raw)
-            self.emit('qd %s' % d14(now), '1' if qd else '0')
+            if not self.outside:      # (the harness's own notion of the chain is void out there)
+                self.emit('qd %s' % d14(now), '1' if qd else '0')
             if quick_decides:
                 self.count('quick-backup:QuickDetectable=%s' % qd)
         argv = ['-B', '-r', self.repo, '-f', self.fsn] + ['-' + c for c in flags]
@@ -746,6 +758,9 @@ class Run:
         with open(path, 'rb') as f:
             orig = f.read()
         orig_content = read_content(path)
+        if orig_content is None:
+            self.violation('C18:backup-unreadable', 'backup file %s cannot be read back' % n)
+            return
         if kind == 'missing':
             os.unlink(path)
             new_content = None
@@ -936,7 +951,8 @@ def main(argv=None):
             ck.extra.setdefault('coverage', {}).setdefault('excluded_points', []).append(
                 dict(name=case.get('name'), note=case.get('note'),
                      backups=[l for l in res['trace']],
-                     reached=res['counts'].get('quick-backup:QuickDetectable=False', 0) > 0,
+                     reached=(res['counts'].get('quick-backup:QuickDetectable=False', 0) > 0
+                              or res['counts'].get('backup:same-second-as-previous', 0) > 0),
                      outcome_on_real_code=res['excluded_notes'],
                      recovers_not_judged=res['counts'].get('recover:outside-QuickDetectable(not judged)', 0),
                      model_agrees_with_code=not any(
